@@ -81,6 +81,59 @@ def import_order(files, base):
     return order
 
 
+def pretty_excerpts(ctx):
+    """the default (pretty) output of the rva binary is a location too: the excerpt must show the line the diagnostic
+    reports, under its own number, with the bars of its three rows in one column and the carets under exactly the
+    reported columns - on the lines where the line number gains a digit, with LF and CRLF line ends (round 8)"""
+    import json, os, shutil, subprocess
+    from props import C18
+    ok, log, rva = C18.build_rva(False)
+    if not ok:
+        return 0, [dict(profile="cli", kind="build", files=[("a.s", "")], why="rva does not build: " + log[-300:])]
+    work = os.path.join(ctx.rundir, "pretty")
+    shutil.rmtree(work, ignore_errors=True)
+    os.makedirs(work)
+    bad, n = [], 0
+    for ci, (files, base, _tag) in enumerate(C18.line_boundary_stores()):
+        text = dict(files)[base]
+        path = os.path.join(work, "p%d.s" % ci)
+        with open(path, "w", encoding="utf-8", newline="") as f:
+            f.write(text)
+        try:
+            pj = subprocess.run([rva, "lint", "--json", path], stdout=subprocess.PIPE, stderr=subprocess.PIPE, timeout=20)
+            pp = subprocess.run([rva, "lint", "--no-color", path], stdout=subprocess.PIPE, stderr=subprocess.PIPE, timeout=20)
+            jd = json.loads(pj.stdout.decode("utf-8", "replace"))["diagnostics"]
+        except (subprocess.TimeoutExpired, ValueError, KeyError) as e:
+            bad.append(dict(profile="cli", kind="lineno", files=[("a.s", text)], why="rva lint on the file fails: %r" % (e,)))
+            continue
+        pit, _ = C18.parse_pretty(pp.stdout.decode("utf-8", "replace"))
+        n += 1
+        flines = text.split("\n")
+        why = None
+        if len(pit) != len(jd) or not jd:
+            why = "the pretty output lists %d diagnostics, the JSON output %d" % (len(pit), len(jd))
+        for (sev, title, _p, shown, src, marker), x in zip(pit, jd):
+            if why:
+                break
+            l, c0, c1 = x["range"]["start"]["line"], x["range"]["start"]["column"], x["range"]["end"]["column"]
+            raw = flines[l] if l < len(flines) else ""
+            body = raw.rstrip("\r")
+            fnw = len(body) - len(body.lstrip(" \t"))
+            if shown != l + 1 or src is None or src.rstrip("\r") != body.strip(" \t"):
+                why = "%r: the excerpt shows line %r %r, the diagnostic is on line %d %r" % (title, shown, src, l + 1, body)
+            elif marker is not None and marker.startswith("\x00"):
+                why = "%r on line %d: %s" % (title, l + 1, marker[1:])
+            else:
+                carets = [i + fnw for i, ch in enumerate(marker or "") if ch == "^"]
+                if carets != list(range(c0, c1 + 1)):
+                    why = "%r on line %d: the marker is under columns %s (%r), the diagnostic is about columns %d-%d (%r)" % (
+                        title, l + 1, carets[:1] + carets[-1:], body[carets[0]:carets[-1] + 1] if carets else "", c0, c1, body[c0:c1 + 1])
+        if why:
+            bad.append(dict(profile="cli", kind="lineno", files=[("a.s", text)], lines=len(flines), crlf="\r" in text, why=why,
+                            how_cli="write the text (%d pad lines, %s line ends) to a file; rva lint --no-color / --json" % (max(0, len(flines) - 6), "CRLF" if "\r" in text else "LF")))
+    return n, bad
+
+
 def run(ctx):
     proof_ok, can_run = common.prepare(ctx, "C09+C09loc", release=True)
     if not can_run:
@@ -194,6 +247,10 @@ def run(ctx):
                                             % (what, mm.group(0), fi, sr, line_col(t, sr), er, line_col(t, er))))
                     break
     ctx.coverage["evaluations"] = ctx.coverage.get("evaluations", 0) + 3 * len(stores)   # parse (impl+model) and diag (impl) per store
+    npretty, pbad = pretty_excerpts(ctx)
+    failing += pbad
+    ctx.coverage["pretty_excerpts_checked"] = npretty
+    ctx.coverage["evaluations"] += 2 * npretty
     if failing:
         f = failing[0]
         lib.violation(ctx, "position", dict(property="C09", input=f, all_failing=failing[:10],
